@@ -2,6 +2,8 @@
 import hashlib
 import struct
 
+from ..absint import Interp
+from ..absstate import State
 from ..absval import ABytes, UNK, ABuiltin, AObj
 from ..rules_g import (Row, run_row, ObsRow, run_obs, I, S, Mult, Pred, OBJ, B,
                        INT, LEN, INJECT)
@@ -130,6 +132,131 @@ def m_reduce(i, a, kw, st, node):
 def ret(res, it):
     r = res.returns()
     return r[0].value if len(r) == 1 else "<%d exits>" % len(r)
+
+
+B64 = "./ABCDEFGHIJKLMNOPQRSTUVWXYZabcdefghijklmnopqrstuvwxyz0123456789"
+
+
+def ref_b64_encode(data):
+    """bcrypt's radix-64: big-endian bit stream cut into 6-bit groups, last group zero-padded on the right, no '='."""
+    bits = "".join("{:08b}".format(b) for b in data)
+    bits += "0" * (-len(bits) % 6)
+    return "".join(B64[int(bits[i:i + 6], 2)] for i in range(0, len(bits), 6)).encode()
+
+
+def ref_b64_decode(text):
+    bits = "".join("{:06b}".format(B64.index(chr(c))) for c in text)
+    bits = bits[:len(bits) - len(bits) % 8]
+    return bytes(int(bits[i:i + 8], 2) for i in range(0, len(bits), 8))
+
+
+def bcrypt_value_rows(check, repo):
+    """What bcrypt() does around the native EKSBlowfish core: the radix-64 codec on every length up to 24 bytes, the
+    assembly of the 60-character string ($2a$, two-digit cost, 22 characters of salt, 31 characters = 23 bytes of the
+    24-byte result), the key handed to the core (password + NUL, at most 72 bytes), 64 encryptions of the constant
+    'OrpheanBeholderScryDoubt', and the round trip bcrypt_check(pw, bcrypt(pw)) with the core replaced by an
+    uninterpreted function of (key, cost, salt)."""
+    import hashlib
+    mod = repo.module(KDF)
+    wrong = []
+    n = 0
+    pats = [bytes(L) for L in range(1, 25)] + [b"\xff" * L for L in range(1, 25)] + [bytes((37 * i + 11 * L) & 0xFF for i in range(L)) for L in range(1, 25)] + \
+           [bytes([0x80] + [0] * (L - 1)) for L in (1, 2, 3, 16, 23)] + [bytes([0] * (L - 1) + [1]) for L in (1, 2, 3, 16, 23)]
+    for d in pats:
+        it = Interp(repo, max_depth=4)
+        res = it.run(mod, repo.func(mod, "_bcrypt_encode"), {"data": d})
+        r = res.returns()
+        got = bytes(r[0].value) if len(r) == 1 and isinstance(r[0].value, (bytes, bytearray)) and not res.raises() else None
+        n += 1
+        if got != ref_b64_encode(d):
+            wrong.append("_bcrypt_encode(%s) = %r, bcrypt radix-64 gives %r" % (d.hex()[:16], got, ref_b64_encode(d)))
+            continue
+        it = Interp(repo, max_depth=4)
+        res = it.run(mod, repo.func(mod, "_bcrypt_decode"), {"data": got})
+        r = res.returns()
+        back = bytes(r[0].value) if len(r) == 1 and isinstance(r[0].value, (bytes, bytearray)) and not res.raises() else None
+        n += 1
+        if back != d:
+            wrong.append("_bcrypt_decode(%r) = %r, expected %s" % (got, back, d.hex()[:16]))
+    check.ob("K-pw", "K-pw|bcrypt.radix64", not wrong, mod.path, repo.func(mod, "_bcrypt_encode").lineno,
+             extracted=("%d of %d rows differ: " % (len(wrong), n) + "; ".join(wrong[:3])) if wrong else "%d rows (every length 1..24, all-zero / all-one / mixed bytes, single bits at both ends): encode as bcrypt's radix-64, decode inverts it" % n,
+             expected="bcrypt radix-64 (alphabet ./A-Za-z0-9, no padding characters, last group padded with zero bits); decode(encode(x)) == x")
+    # ---- assembly and round trip
+    wrong = []
+    rows = 0
+    for pw, cost, salt in ((b"password", 4, bytes(range(16))), (b"", 12, b"\xff" * 16), (b"x" * 71, 31, bytes(16)), (b"y" * 72, 5, bytes(range(100, 116))),
+                           ("p\u00e4ss", 10, bytes(range(16)))):
+        seen = {}
+
+        def core(key, cst, slt):
+            return hashlib.sha256(b"core" + bytes([len(key)]) + key + bytes([cst]) + slt).digest()[:24]
+
+        class _Eks(object):
+            pass
+
+        def m_new(i, a, kw, st, node, seen=seen):
+            seen.setdefault("new", []).append((bytes(a[0]) if isinstance(a[0], (bytes, bytearray)) else a[0], a[2] if len(a) > 2 else None,
+                                               a[3] if len(a) > 3 else None, a[4] if len(a) > 4 else None))
+            o = i.new_obj(st, label="eks")
+            st.heap[o.ident].update({"key": a[0], "salt": a[2] if len(a) > 2 else None, "cost": a[3] if len(a) > 3 else None, "n": 0})
+            return o
+
+        def m_encrypt(i, base, a, kw, st, node, seen=seen):
+            h = st.heap.get(getattr(base, "ident", -1), {})
+            seen["enc"] = seen.get("enc", 0) + 1
+            seen.setdefault("first", a[0] if a else None)
+            if not all(isinstance(h.get(k), (bytes, bytearray, int)) for k in ("key", "salt", "cost")) or not isinstance(a[0], (bytes, bytearray)):
+                return ABytes(24)
+            # an uninterpreted injective step: chained 64 times it is a function of (key, cost, salt, constant)
+            return hashlib.sha256(b"step" + bytes(a[0]) + bytes([len(h["key"])]) + bytes(h["key"]) + bytes([h["cost"]]) + bytes(h["salt"])).digest()[:24]
+        it = Interp(repo, max_depth=6, extra_models={"Crypto.Cipher._EKSBlowfish.new": m_new}, method_models={"encrypt": m_encrypt})
+        it.unroll_limit = 200
+        res = it.run(mod, repo.func(mod, "bcrypt"), {"password": pw, "cost": cost, "salt": salt})
+        r = res.returns()
+        out = bytes(r[0].value) if len(r) == 1 and isinstance(r[0].value, (bytes, bytearray)) and not res.raises() else None
+        rows += 1
+        pwb = pw.encode("utf-8") if isinstance(pw, str) else pw
+        key = pwb + b"\x00" if len(pwb) < 72 else pwb
+        ct = b"OrpheanBeholderScryDoubt"
+        for _ in range(64):
+            ct = hashlib.sha256(b"step" + ct + bytes([len(key)]) + key + bytes([cost]) + salt).digest()[:24]
+        want = b"$2a$" + ("%02d" % cost).encode() + b"$" + ref_b64_encode(salt) + ref_b64_encode(ct[:23])
+        if out != want or len(want) != 60:
+            wrong.append("bcrypt(%r, %d): %r, expected %r" % (pw[:8], cost, out, want))
+            continue
+        if seen.get("new") != [(key, salt, cost, True)] or seen.get("enc") != 64 or seen.get("first") != b"OrpheanBeholderScryDoubt":
+            wrong.append("bcrypt(%r, %d): core set up with %r, %r encryptions starting from %r" % (pw[:8], cost, seen.get("new"), seen.get("enc"), seen.get("first")))
+            continue
+        # round trip, and a wrong password / a damaged hash
+        for what, pw2, h2, ok in (("same password", pw, want, True), ("other password", b"other", want, False),
+                                  ("last character changed", pw, want[:-1] + (b"." if want[-1:] != b"." else b"/"), False),
+                                  ("cost field changed", pw, want[:4] + (b"06" if cost != 6 else b"07") + want[6:], False)):
+            macs = []
+
+            def m_blake(i, a, kw, st, node, macs=macs):
+                o = i.new_obj(st, label="mac")
+                st.heap[o.ident]["data"] = kw.get("data")
+                return o
+
+            def m_digest(i, base, a, kw, st, node):
+                d = st.heap.get(getattr(base, "ident", -1), {}).get("data")
+                return hashlib.sha256(b"mac" + bytes(d)).digest()[:20] if isinstance(d, (bytes, bytearray)) else ABytes(20)
+            it = Interp(repo, max_depth=8, extra_models={"Crypto.Cipher._EKSBlowfish.new": m_new, "Crypto.Hash.BLAKE2s.new": m_blake,
+                                                         "Crypto.Random.get_random_bytes": lambda i, a, kw, st, node: bytes(16)},
+                        method_models={"encrypt": m_encrypt, "digest": m_digest})
+            it.unroll_limit = 200
+            res = it.run(mod, repo.func(mod, "bcrypt_check"), {"password": pw2, "bcrypt_hash": h2})
+            rows += 1
+            accepted = not res.rejected() and not res.raises()
+            refused = res.rejected() and set(res.raise_classes()) <= {"ValueError"}
+            if ok and not accepted:
+                wrong.append("bcrypt_check(pw, bcrypt(pw, %d)) is refused (%s)" % (cost, res.raise_classes()))
+            if not ok and not refused:
+                wrong.append("bcrypt_check with %s: %s" % (what, "accepted" if accepted else "undecided / raises %s" % res.raise_classes()))
+    check.ob("K-pw", "K-pw|bcrypt.assembly", not wrong, mod.path, repo.func(mod, "bcrypt").lineno,
+             extracted=("%d rows differ: " % len(wrong) + "; ".join(wrong[:3])) if wrong else "%d rows: $2a$cc$ + 22 + 31 characters from (salt, first 23 bytes of the 64-fold encryption), key = password + NUL (72 bytes as they are); bcrypt_check accepts exactly the matching password and string" % rows,
+             expected="the OpenBSD bcrypt string format and key preparation; bcrypt_check(pw, bcrypt(pw)) succeeds, any other password or a modified string raises ValueError")
+    check.count("bcrypt_rows", n + rows)
 
 
 def run(check, ctx):
@@ -276,6 +403,7 @@ def run(check, ctx):
                              cite="60-character bcrypt string"))
     info = check_verify(check, repo, KDF, "bcrypt_check", "bcrypt_hash", ("nothing",), keyprefix="V",
                         expected_locals=("bcrypt_hash2",))
+    bcrypt_value_rows(check, repo)
     # HMAC key preparation is part of PBKDF2/HKDF's specification (RFC 2104)
     from .c03_extra import hmac_rows
     hmac_rows(check, repo, prop="C12")
